@@ -80,6 +80,18 @@ func runC01(c *Ctx) {
 	// the castling rights the generator trusts must have been maintained correctly by every earlier move
 	r.Rule("R01-rights", "the castling rights the generator consults are maintained exactly: a move drops the rights whose king or rook home square it leaves or lands on (the rule of C02, re-decided here because an illegal castling move is its direct consequence)", 27)
 	c.guard("R01-rights", func() { r.WithAlias("R02-rights", "R01-rights", func() { c02Rights(c, bm) }) })
+	// ... and so must the en passant target: the generator emits an e.p. capture for any pawn that attacks the stored
+	// square, so a target that survives a quiet move yields an expired capture (rule of C02, re-decided here)
+	r.Rule("R01-ep", "the e.p. target the generator consults is maintained exactly: set to the jumped-over square by a double pawn step and cleared by every other move; EnPassantTarget/EnPassantCapture name the right squares (rule of C02)", 40)
+	c.guard("R01-ep", func() {
+		g := func() { runC02(c) }
+		for _, n := range []string{"R02-toggles", "R02-rights", "R02-lockstep", "R02-pure"} {
+			name, inner := n, g
+			g = func() { r.WithAlias(name, "-", inner) }
+		}
+		inner := g
+		r.WithAlias("R02-special", "R01-ep", inner)
+	})
 	// the legality filter is only as good as the attack queries it asks: 'in check' must mean 'the own
 	// king's square is attacked by any opponent piece, kings included' (rules of C06, re-decided here)
 	r.Rule("R01-attack", "the attack queries behind the legality filter are the real ones: IsChecked asks IsAttacked for the own king's square, IsAttacked covers all six piece kinds, IsAttackedBy intersects the attack board from the square with the opponent's pieces of the same kind, and the attack boards themselves (rotated-view windows, slider rays, leaper and pawn tables, dispatch) are the geometric ones for every square (rules of C06)", 900)
